@@ -8,6 +8,8 @@ from ..core import FUNC, call_attr, calls_in, const, dotted, is_const, kwarg, no
 from .c09 import waiter_rule, _stored_in_cancelled_table
 
 EXPLANATION = [
+    'C16.uncalled-predicate: done / cancelled / is_set / locked / empty used as truth values are called (a bound method is always true).',
+    'C16.dead-default-check: no value obtained by indexing a defaultdict attribute is afterwards tested for absence (`is None` / falsy): such a test is dead and the lookup has created the entry (drain() would wait on a fresh event nobody sets).',
     'C16.one-shot: no name bound to a generator expression or to filter() / map() / zip() / reversed() / enumerate() is read in more than one consuming position or inside a loop that evaluates it repeatedly: such an iterator is empty after its first walk.',
     'C16.sink-wrappers: every class that installs itself as the packet sink of a transport source and forwards packets to a sink of its own also has on_transport_lost and passes it on (BaseSource only notifies sinks that have the method).',
     'C16.exception-payloads: `future.set_exception(x)` is never given a status / number, and every emit of an event that has a bound `set_exception` registered directly as listener passes an exception object built in that function.',
@@ -560,7 +562,19 @@ def one_shot_rule(ctx):
     one_shot_iterators(ctx, 'C16.one-shot', ['bumble.device', 'bumble.host', 'bumble.gatt_server', 'bumble.gatt_client', 'bumble.smp'])
 
 
+def dead_default_check_rule(ctx):
+    from ..generic_rules import dead_default_check
+    dead_default_check(ctx, 'C16.dead-default-check', ['bumble.host', 'bumble.gatt_server', 'bumble.l2cap', 'bumble.device'])
+
+
+def uncalled_predicate_rule(ctx):
+    from ..generic_rules import uncalled_predicate
+    uncalled_predicate(ctx, 'C16.uncalled-predicate', ['bumble.device', 'bumble.host', 'bumble.l2cap', 'bumble.gatt_client', 'bumble.gatt_server', 'bumble.rfcomm'])
+
+
 RULES = [
+    ('C16.uncalled-predicate', uncalled_predicate_rule),
+    ('C16.dead-default-check', dead_default_check_rule),
     ('C16.one-shot', one_shot_rule),
     ('C16.sink-wrappers', sink_wrappers),
     ('C16.exception-payloads', exception_payloads_rule),
